@@ -156,6 +156,9 @@ def _values_in(units, obj):
     """Numbers of *obj* expressed in *units*: quantities (also inside tuples and
     lists) are converted, bare numbers are taken as they are."""
     if hasattr(obj, "units"):
+        if obj.units == units:
+            # nothing to convert: keep the numbers (and an integer dtype) as they are
+            return np.asarray(obj)
         return obj.to_value(units)
     if isinstance(obj, (tuple, list)):
         return type(obj)(_values_in(units, _) for _ in obj)
